@@ -250,48 +250,103 @@ def counts_for(b, rng=None):
 
 
 def dictionary_cases(rng):
-    """directed search around novel literals: buffers whose read offset / write offset / length / size equal the literal,
-    then every op instance (with the literal among the counts)"""
+    """directed search around novel literals: buffers whose read offset / write offset / length / size equal the literal
+    (and, for pairs of literals, read offset = one and length = the other), then every op instance with the literals among the counts"""
     from . import dictionary
+    groups = []          # one list of cases per (literal, state); a budget is shared fairly between the groups
     cases = []
-    EXACT = set(dictionary.exact())
+    EXACT = list(dictionary.exact())
+    def alphabet(b, S, v):
+        alpha = op_alphabet(b, rng)
+        if S > 1024:
+            keep = {"Shift", "ReadAll", "ReadByte", "Clear", "Len", "Readable", "Deframe", "CopyOnce", "TryParse", "WriteStr"}
+            vals = set([0, 1, v, b.ln(), b.wl()]) | set(NOVEL)
+            alpha = [o for o in alpha if o[0] in keep or (len(o) > 1 and isinstance(o[1], int) and o[1] in vals)
+                     or (o[0] in ("WriteBytes", "IoWrite") and len(o[1]) in vals)]
+            near = (v - 1, v, v + 1)
+            def p0(o):
+                if o[0] in ("Shift", "ReadAll", "TryParse", "Clear"):
+                    return 0
+                if any(isinstance(x, int) and x in near for x in o[1:]) or any(isinstance(x, tuple) and len(x) in near for x in o[1:]):
+                    return 1
+                return 2
+            alpha = sorted(alpha, key=p0)[:(40 if S <= 140000 else 26)]
+        if b.ln() > 4096:
+            alpha = [o for o in alpha if o[0] != "Deframe"]       # the model's deframers are quadratic in the unread length
+        return [o for o in alpha if not (o[0] in ("ReadCopy", "TryReadExact", "IoRead") and o[1] > 300000)]
+    def from_states(S, states, v):
+        for ctor, m, pre in states:
+            cases = []
+            groups.append(cases)
+            b = PyBuf(S, ctor, m)
+            for op in pre:
+                b.apply(op)
+            for op in alphabet(b, S, v):
+                cases.append(mk_case(S, ctor, m, pre + [op], "dictionary"))
+                if op[0] in ("Shift", "ReadBytes", "Wrote", "WriteBytes", "Clear", "ReadAll"):
+                    b2 = PyBuf(S, ctor, m)
+                    for o in pre + [op]:
+                        b2.apply(o)
+                    if b2.ln() <= 4000:      # the model's deframers are quadratic in the unread length
+                        cases.append(mk_case(S, ctor, m, pre + [op, ("WriteBytes", (120, 121, 10))] + [("Deframe", 0), ("ReadAll",)], "dictionary"))
     for v in NOVEL:
-        S = dictionary.size_for(v)
+        S = dictionary.size_for(v + 3)
         if S is None or (S > 4096 and v not in EXACT):      # big buffers are expensive in the model: only the literal itself
             continue
-        states = []
         mem = [97 + (i % 26) for i in range(S)]
-        big = S > 4096        # the model's deframers are quadratic in the unread length: keep the unread part short on big buffers
+        big = S > 4096
+        states = []
         if v >= 1 and not big:
             states.append((2, mem, [("ReadBytes", v)]))                                 # read offset = v, full to the end
             states.append((2, mem, [("ReadBytes", S - v)]))                             # length = v
         if not big:
             states.append((0, [], [("WriteBytes", tuple(mem[:v]))] if v else []))       # write offset = v, length = v
-        if v + 3 <= S and v >= 1:
+        if v >= 1:
             states.append((0, [], [("WriteBytes", tuple(mem[:v + 3])), ("ReadBytes", v)]))   # read offset = v, 3 unread bytes
         if v >= 2:
             states.append((0, [], [("WriteBytes", tuple(mem[:v])), ("ReadBytes", v - 2)]))   # write offset = v, 2 unread bytes
-        if v + 2 <= S and not big:
+        if not big:
             states.append((0, [], [("WriteBytes", tuple(mem[:v + 2])), ("ReadBytes", 2)]))   # length = v at offset 2
         if big:
-            states.append((0, [], [("WriteBytes", tuple(mem[:v]))]))                    # length = v (no deframing on this one)
-        for ctor, m, pre in states:
-            b = PyBuf(S, ctor, m)
-            for op in pre:
-                b.apply(op)
-            alpha = op_alphabet(b, rng)
-            if S > 1024:
-                keep = {"Shift", "ReadAll", "ReadByte", "Clear", "Len", "Readable", "Deframe", "CopyOnce", "TryParse", "WriteStr"}
-                alpha = [o for o in alpha if o[0] in keep or (len(o) > 1 and isinstance(o[1], int) and o[1] in (0, 1, v, b.ln(), b.wl()))][:36]
-            if b.ln() > 4096:
-                alpha = [o for o in alpha if o[0] != "Deframe"]
-            for op in alpha:
-                if op[0] in ("ReadCopy", "TryReadExact", "IoRead") and op[1] > 70000:
-                    continue
-                cases.append(mk_case(S, ctor, m, pre + [op], "dictionary"))
-                if op[0] in ("Shift", "ReadBytes", "Wrote", "WriteBytes", "Clear", "ReadAll") and b.ln() <= 4096:
-                    cases.append(mk_case(S, ctor, m, pre + [op, ("WriteBytes", (120, 121, 10))] + [("Deframe", 0), ("ReadAll",)], "dictionary"))
-    return cases
+            states.append((0, [], [("WriteBytes", tuple(mem[:v]))]))                    # length = v
+            states.append((0, [], [("WriteBytes", tuple(mem[:v + 3]))]))                # length just above v
+        from_states(S, states, v)
+    # pairs of literals (and their lower/upper neighbours): read offset = a, unread length = b
+    pairs = []
+    for x in EXACT[:4]:
+        for y in EXACT[:4]:
+            if x == y:
+                continue
+            for a in (x - 1, x):
+                for b_ in (y, y + 1):
+                    if a >= 1 and b_ >= 1 and max(a, b_) >= 256 and (a, b_) not in pairs:
+                        pairs.append((a, b_))
+    pairs.sort(key=lambda p: min(p))          # a small offset with a large length (or the reverse) first
+    for a, b_ in pairs[:10]:
+        S = dictionary.size_for(a + b_)
+        if S is None:
+            continue
+        mem = [97 + (i % 26) for i in range(a + b_)]
+        from_states(S, [(0, [], [("WriteBytes", tuple(mem)), ("ReadBytes", a)])], b_)
+    # budget: at most 2500 cases / 60 MB, taken round-robin from the groups (ops with a literal among their arguments first)
+    def prio(c):
+        ops = ops_of(c)
+        last = ops[-1] if ops[-1][0] != "ReadAll" or len(ops) < 3 else ops[-4] if len(ops) >= 4 else ops[-1]
+        hit = any(isinstance(x, int) and x in NOVEL for x in last[1:]) or any(isinstance(x, tuple) and len(x) in NOVEL for x in last[1:])
+        return 0 if hit or last[0] in ("Shift", "ReadAll", "TryParse", "Clear", "CopyOnce") else 1
+    for g in groups:
+        g.sort(key=prio)
+    out, size, i = [], 0, 0
+    while len(out) < 2500 and size < 60000000 and any(groups):
+        g = groups[i % len(groups)]
+        if g:
+            c = g.pop(0)
+            out.append(c)
+            size += len(c.line)
+        i += 1
+        if i > 10 ** 6:
+            break
+    return out
 
 
 def rand_steps(rng, b, depth):
@@ -337,6 +392,10 @@ def op_alphabet(b, rng, rich=True):
         ops.append(("Deframe", which))
     ops += [("CopyOnce", 0, 1, 0, (120, 121, 122)), ("CopyOnce", 0, UMAX, 2, (120, 121, 122, 119)), ("CopyOnce", 1, 5, 0, (1,)),
             ("CopyOnce", 2, 0, 0, ()), ("CopyOnce", 0, 0, 3, (7,)), ("CopyOnce", 4, b.wl() + 1, 0, ())]
+    for n in NOVEL:
+        if 0 < n <= b.ln():      # closures that read a literal-sized block and then a little more, and give up
+            ops += [("TryParse", (("STryBytes", n), ("STryByte",)), False), ("TryParse", (("SCopy", min(n, 300000)), ("STryBytes", 1)), False),
+                    ("TryParse", (("SBytes", n), ("SNested", (("STryByte",),), False)), False)]
     ops += [("TryParse", (("SAll",),), False), ("TryParse", (("STryBytes", 1),), True), ("TryParse", (("SCopy", 2),), False),
             ("TryParse", (("SNested", (("SAll",),), True), ("STryByte",)), False), ("TryParse", (("SBytes", UMAX),), False)]
     return ops
